@@ -62,7 +62,13 @@ theorem deStruct_shape {f : Nat} {ps : List Field} {deny : Bool} {v : Json} {p :
   | succ f =>
     simp only [deStruct] at h
     split at h
-    · simp at h
+    · split at h
+      · split at h
+        · simp at h
+        · split at h
+          · simp at h
+          · simp at h; exact ⟨_, h.symm⟩
+      · simp at h
     · split at h
       · split at h
         · simp at h
@@ -615,8 +621,8 @@ theorem art_step (hcl : closedOkB σ S = true) {f : Nat} (hA : Art x σ S f) (hS
                       -- the tag is not among the members, so erasing it gives the members back
                       have hkeys : ∀ kv ∈ es, kv.1 ≠ tg := by
                         intro kv hkv
-                        obtain ⟨q, hq, hqw⟩ := seStruct_keys hs kv hkv
                         simp only [variantOkB, Bool.and_eq_true] at hvo
+                        obtain ⟨q, hq, hqw⟩ := seStruct_keys (fieldsOk_unpack σ hvo.1).1 hs kv hkv
                         have := (List.all_eq_true.mp hvo.2) q hq
                         rw [← hqw]; simpa using this
                       have herase : Json.erase ((tg, Json.str (Variant.wire ⟨raw, ident, .struct ps⟩)) :: es) tg = es := by
